@@ -118,6 +118,73 @@ func strategyCase(idx int64, r *rand.Rand) {
 	rt.Distinct(fmt.Sprintf("strategy|%s|%v", kind, ops))
 }
 
+// concurrentStrategySamples: many goroutines acquire at once (nobody releases, the limit is never reached): every
+// admission decision saw a different count, so the emitted in-flight samples must be exactly 1..K, each once.
+func concurrentStrategySamples(idx int64, r *rand.Rand) {
+	reg := inject.NewRecRegistry()
+	var s core.Strategy
+	kind := "simple"
+	if r.IntN(2) == 0 {
+		s = strategy.NewSimpleStrategyWithMetricRegistry(1<<20, reg)
+	} else {
+		kind = "precise"
+		s = strategy.NewPreciseStrategyWithMetricRegistry(1<<20, reg)
+	}
+	nG, per := 2+r.IntN(7), 20+r.IntN(100)
+	var wg sync.WaitGroup
+	var ready atomic.Int32
+	for g := 0; g < nG; g++ {
+		wg.Add(1)
+		go func() {
+			defer wg.Done()
+			ready.Add(1)
+			for ready.Load() < int32(nG) {
+				runtime.Gosched()
+			}
+			for i := 0; i < per; i++ {
+				s.TryAcquire(context.Background())
+			}
+		}()
+	}
+	wg.Wait()
+	ev := reg.Drain()
+	seen := make([]int, nG*per+2)
+	bad := len(ev) != nG*per
+	for _, e := range ev {
+		v := int(e.Value)
+		if e.ID != core.MetricInFlight || v < 1 || v > nG*per || float64(v) != e.Value {
+			bad = true
+			continue
+		}
+		seen[v]++
+		if seen[v] > 1 {
+			bad = true
+		}
+	}
+	rt.Count("concurrent_strategy_sample_rounds", 1)
+	if bad {
+		var dup, missing []int
+		for v := 1; v <= nG*per; v++ {
+			if seen[v] > 1 {
+				dup = append(dup, v)
+			} else if seen[v] == 0 {
+				missing = append(missing, v)
+			}
+		}
+		rt.Violation("C20/"+kind+"/concurrent-admissions-did-not-each-report-their-own-count", idx, rt.J{"goroutines": nG, "acquires_each": per,
+			"samples": len(ev), "values_reported_twice": head(dup), "values_never_reported": head(missing)})
+		return
+	}
+	rt.Distinct(fmt.Sprintf("concsamples|%s|%d|%d", kind, nG, per))
+}
+
+func head(v []int) []int {
+	if len(v) > 12 {
+		return v[:12]
+	}
+	return v
+}
+
 // ---------------------------------------------------------------- A2: partitioned strategies
 
 func partitionCase(idx int64, r *rand.Rand) {
@@ -753,6 +820,8 @@ func TestCheck(t *testing.T) {
 		r := rt.CaseRand(20, idx)
 		rt.Case()
 		switch m := idx % 24; {
+		case m == 0:
+			concurrentStrategySamples(idx, r)
 		case m < 6:
 			strategyCase(idx, r)
 		case m < 11:
